@@ -1,6 +1,6 @@
 #!/bin/bash
 # usage: tools/try_seed.sh <patch.diff> <ID> [tier]   -- applies the patch to /repo, runs the check, always undoes it
-P="$1"; ID="$2"; TIER="${3:-quick}"
+P="$(realpath "$1")"; ID="$2"; TIER="${3:-quick}"
 cd /repo || exit 9
 if [ -n "$(git status --porcelain --untracked-files=no)" ]; then echo "/repo not clean"; exit 9; fi
 git apply "$P" || { echo "patch does not apply"; exit 9; }
